@@ -307,6 +307,9 @@ def run(ctx):
     try:
         from . import runlevel
         run_cov = runlevel.filter_events(ctx, rep)
+        # ONE WHOLE CALL (Props/C17Opt.lean): the rows each search / poll step evaluates are DERIVED by the whole-call model from the filtered candidate
+        # sets (`filterCode`) and compared with the run per iteration (runs with plain options)
+        run_cov["whole_run_model"] = runlevel.whole_replay(ctx, rep, plain_only=True)
     except ImportError:
         pass
     rep.coverage = {
